@@ -203,8 +203,29 @@ def zero_crc_frames(draw, tier):
     return f
 
 
+@st.composite
+def encapsulating_frames(draw, tier):
+    """D3 00 LL | CRC(D3 00 LL) | <complete inner frame>: header+3 bytes form a codeword and so does the inner frame,
+    hence the whole is a valid frame whose trailer is the inner frame's; damage to the first byte leaves a suffix
+    that is valid by itself - validation must still cover the whole byte string it was given"""
+    inner = framing.build_frame(draw(st.one_of(gen.unknown_payloads("small"), gen.any_message("small").map(lambda c: bytes.fromhex(c["payload"])))))
+    n = 3 + len(inner) - 3
+    if n > 1023:
+        return inner
+    head = bytes([0xD3, n >> 8, n & 0xFF])
+    f = head + framing.crc_table(head).to_bytes(3, "big") + inner
+    assert framing.frame_problem(f) is None
+    return f
+
+
+def _trailer_frames(tier):
+    from pv import streams
+
+    return streams.trailer_frames().map(lambda it: bytes.fromhex(it["b"]))
+
+
 def _frames(tier):
-    return st.one_of(zero_crc_frames(tier), gen.payloads(tier).map(framing.build_frame), gen.payloads(tier).map(framing.build_frame), nested_prefix_frames(tier))
+    return st.one_of(zero_crc_frames(tier), encapsulating_frames(tier), _trailer_frames(tier), gen.payloads(tier).map(framing.build_frame), gen.payloads(tier).map(framing.build_frame), nested_prefix_frames(tier))
 
 
 @st.composite
@@ -290,6 +311,27 @@ def s_valoff(draw, tier):
     return {"frame": frame.hex(), "crc": crc.hex()}
 
 
+def o_cold(case):
+    """calc_crc24q called for the FIRST time in a fresh interpreter by several threads at once"""
+    from pv import child
+
+    frames = [bytes.fromhex(f) for f in case["frames"]]
+    for _ in range(case["children"]):
+        out = child.cold_start_threads([], frames, threads=6)
+        for t, r in out.items():
+            for kk, a, b in r["crc"]:
+                want = framing.crc_div(frames[kk][:-3])
+                if a == "exc" or a != want or b != 0:
+                    raise Fail("cold-start-crc", f"fresh interpreter, thread {t}: calc_crc24q gave {a!r} / {b!r}, reference {want:#x} / 0 (frame length {len(frames[kk])})")
+    return Res(nontrivial=True, classes=["cold-start"], evals=case["children"] * 6 * len(frames))
+
+
+@st.composite
+def s_cold(draw, tier):
+    fr = [draw(_frames("small")).hex() for _ in range(6)]
+    return {"frames": fr, "children": 3 if tier == "quick" else 8}
+
+
 SUBS = [
     Sub("crc_value", o_value, strategy=s_value, enum=e_value, examples=(250, 6000), rule="data length > 6", need={"len1029": 1, "len0": 1}),
     Sub("detect_patterns", o_detect, strategy=s_detect, examples=(250, 8000), rule="frame length > 6; distinct (frame, positions)", need={"pair": 1, "odd": 1, "burst": 1, "lower-length": 1, "zero-crc-frame": 1}),
@@ -304,4 +346,5 @@ SUBS = [
         sample=lambda c: {**c, "frame": c["frame"][:80] + ("..." if len(c["frame"]) > 80 else ""), "frame_len": len(c["frame"]) // 2},
     ),
     Sub("validate_off", o_valoff, strategy=s_valoff, examples=(60, 1500), rule="CRC bytes differ from the right ones"),
+    Sub("crc_first_use_by_concurrent_threads", o_cold, strategy=s_cold, examples=(1, 8), rule="every case: fresh interpreters, 6 threads check-summing at once", sample=lambda c: {"frames": [f[:40] for f in c["frames"]], "children": c["children"]}),
 ]
